@@ -1,6 +1,6 @@
 #!/bin/bash
 # tools/import_round.sh <variant letters...> : import every finished, not yet imported seeded change of /tmp/mut/out (serially; patches /repo and reverts)
-cd /verif
+cd "$(dirname "$0")/.."
 for p in C01 C02 C03 C04 C05 C06 C07 C08 C09 C10 C11 C12 C13 C14 C15 C16 C17 C18 C19; do
   for v in "$@"; do
     d=/tmp/mut/out/$p/$v
